@@ -19,7 +19,9 @@ Quirks kept on purpose (they are what the code does):
   (the end-of-line byte is kept), an unescaped CR stays CR;
 * `;` and "problematic" control / C1 bytes are skipped by a self-call of `next_token`;
   after a skipped problematic byte, end of input is an error instead of `Eof`;
-* reals keep their token text (floats are never modelled): `Token::Real` carries `number_str`.
+* reals keep their token text (floats are never modelled): `Token::Real` carries `number_str`;
+* a digit run outside `i64` is a `Token::Real` carrying the digits (before the repair of C09-F4:
+  "Invalid integer").
 Import-free.
 -/
 namespace OxiVerif.Model.Lexer
@@ -249,6 +251,12 @@ def parseI64 (s : List Nat) : Option Int :=
     if p.1 then (if n ≤ 9223372036854775808 then some (- (Int.ofNat n)) else none)
     else (if n ≤ 9223372036854775807 then some (Int.ofNat n) else none)
 
+/-- `str::parse::<i64>()` fails with `PosOverflow` / `NegOverflow`: optional sign, at least one
+    digit, digits only (every other failure is `Empty` / `InvalidDigit`) -/
+def overflowsI64 (s : List Nat) : Bool :=
+  let p := splitSign s
+  !p.2.isEmpty && allDigits p.2 && (parseI64 s).isNone
+
 def countDigits : List Nat → Nat
   | [] => 0
   | b :: r => (if isDigit b then 1 else 0) + countDigits r
@@ -288,6 +296,25 @@ def readExponent (r2 : List Nat) : Option (List Nat) × List Nat :=
 
 /-- `read_number`; the first byte is one of `+ - 0-9 .` -/
 def readNumber (inp : List Nat) : Res (Token × List Nat) :=
+  match readSign inp with
+  | .error e => .error e
+  | .ok (sg, r1) =>
+    let m := takeMantissa false r1
+    let x := readExponent m.2.2
+    let numberStr := sg ++ m.1 ++ x.1.getD []
+    if m.2.1 || x.1.isSome then
+      if validF64 m.1 x.1 then .ok (.real numberStr, x.2) else .error .syntax
+    else
+      match parseI64 numberStr with
+      | some i => .ok (.int i, x.2)
+      | none =>
+        -- `IntErrorKind::PosOverflow | NegOverflow`: the digits are fine, the value is not
+        -- an `i64`; the token is then read as a real (`parse::<f64>` accepts any digit run)
+        if overflowsI64 numberStr then .ok (.real numberStr, x.2) else .error .syntax
+
+/-- `read_number` before the repair of C09-F4: an integer token outside `i64` was
+    "Invalid integer" -/
+def readNumberOld (inp : List Nat) : Res (Token × List Nat) :=
   match readSign inp with
   | .error e => .error e
   | .ok (sg, r1) =>
